@@ -2,7 +2,7 @@
 # tools/validate_rewrites.sh [KINDS]  : shows that the whole-tree rewrites of sa/rewrites.py really are behaviour-preserving as far as
 # the project's own tests can tell: applies them (default: all together) to a scratch worktree of /repo and runs the pinned suite there;
 # the passing set must equal the baseline.  Not part of any check (it executes repo code); it validates the checker's test material.
-K=${1:-DEHGKOCTRM}
+K=${1:-DEHGKOCTRMF}
 WT=$(mktemp -d /tmp/rwwt.XXXXXX); rmdir "$WT"
 git -C /repo worktree add -q --detach "$WT" HEAD || exit 3
 trap 'git -C /repo worktree remove --force "$WT" >/dev/null 2>&1' EXIT
